@@ -204,6 +204,37 @@ def evaluate(seed, hashseed, root, stats):
             if real != want:
                 viol("wrong-definition", "registry-order:%s" % typ, real=real, model=want)
                 return _finish(out, dig, stats, nops)
+        # lookups BETWEEN registrations (a step is looked up while later modules are not loaded yet):
+        # they must not change what the registry holds
+        so_far = [d for t in ref for d in ref[t]]
+        for _ in range(min(3, len(so_far))):
+            d = rng.choice(so_far)
+            text = W.instantiate(rng, d)
+            types = ["given", "when", "then"] if d["type"] == "step" else [d["type"]]
+            stype = rng.choice(types)
+            chosen = None
+            for cand in ref[stype] + ref["step"]:
+                if model_regex(cand).match(text):
+                    chosen = cand
+                    break
+            nops += 1
+            stats.fired["lookup:mid-history"] = stats.fired.get("lookup:mid-history", 0) + 1
+            try:
+                match = reg.find_match(Step(u"<sim>", 1, u"Given", stype, text))
+            except Exception as e:
+                viol("exception-escaped", "find_match:%s" % type(e).__name__, text=text, error=str(e)[:200])
+                continue
+            real = match.func.__name__ if (match is not None and match.func is not None) else None
+            dig.update(("mid:%s:%s:%s|" % (stype, text, real)).encode("utf-8"))
+            if (chosen["id"] if chosen else None) != real:
+                viol("wrong-definition", "lookup-mid-history:%s-instead-of-%s" % (_type_of(so_far, real), chosen["type"] if chosen else "none"),
+                     text=text, stype=stype, chosen=real, model=chosen["id"] if chosen else None)
+        for typ in ("given", "when", "then", "step"):
+            real = [m.func.__name__ for m in reg.steps[typ]]
+            want = [d["id"] for d in ref[typ]]
+            if real != want:
+                viol("wrong-definition", "registry-changed-by-lookup:%s" % typ, real=real, model=want)
+                return _finish(out, dig, stats, nops)
     # re-loading the very same module registers nothing new and raises nothing
     if mods and rng.random() < 0.7:
         mi = rng.randrange(len(mods))
